@@ -45,6 +45,18 @@ func TestParseV1Header(t *testing.T) {
 			dest:   &net.TCPAddr{IP: net.ParseIP("::2"), Port: 4},
 		},
 		{
+			name:   "TCP6 Shortest",
+			header: "PROXY TCP6 :: :: 0 0\r\n",
+			src:    &net.TCPAddr{IP: net.ParseIP("::"), Port: 0},
+			dest:   &net.TCPAddr{IP: net.ParseIP("::"), Port: 0},
+		},
+		{
+			name:   "TCP6 Short",
+			header: "PROXY TCP6 :: ::1 2 3\r\n",
+			src:    &net.TCPAddr{IP: net.ParseIP("::"), Port: 2},
+			dest:   &net.TCPAddr{IP: net.ParseIP("::1"), Port: 3},
+		},
+		{
 			name:   "TCP6 Maximal",
 			header: "PROXY TCP6 0000:0000:0000:0000:0000:0000:0000:0002 0000:0000:0000:0000:0000:0000:0000:0001 65535 65535\r\n",
 			src:    &net.TCPAddr{IP: net.ParseIP("0000:0000:0000:0000:0000:0000:0000:0002"), Port: 65535},
